@@ -47,9 +47,6 @@ func (c *Client) Subscribe(ctx context.Context, params *SubscriptionParameters, 
 
 	stats.Subscription().Add("Count", 1)
 
-	// start the publish loop if it isn't already running
-	c.resumech <- struct{}{}
-
 	sub := &Subscription{
 		SubscriptionID:            res.SubscriptionID,
 		RevisedPublishingInterval: time.Duration(res.RevisedPublishingInterval) * time.Millisecond,
@@ -73,6 +70,11 @@ func (c *Client) Subscribe(ctx context.Context, params *SubscriptionParameters, 
 
 	c.subs[sub.SubscriptionID] = sub
 	c.updatePublishTimeout_NeedsSubMuxLock()
+
+	// start the publish loop if it isn't already running. This happens
+	// while subMux is held, like the pause for the last forgotten
+	// subscription, so that the loop runs iff there is a subscription.
+	c.resumeSubscriptions(ctx)
 	return sub, nil
 }
 
@@ -346,22 +348,47 @@ func (c *Client) notifySubscription(ctx context.Context, sub *Subscription, noti
 	}
 }
 
-// pauseSubscriptions suspends the publish loop by signalling the pausech.
-// It has no effect if the publish loop is already paused.
+// pauseSubscriptions suspends the publish loop after the publish request
+// which is currently in flight. It never blocks and has no effect if the
+// publish loop is already paused.
 func (c *Client) pauseSubscriptions(ctx context.Context) {
+	c.pubMu.Lock()
+	c.pubPaused = true
+	c.pubMu.Unlock()
+}
+
+// pauseSubscriptionsIf suspends the publish loop unless it has been
+// resumed since gen was obtained from publishState.
+func (c *Client) pauseSubscriptionsIf(gen uint64) {
+	c.pubMu.Lock()
+	if c.pubGen == gen {
+		c.pubPaused = true
+	}
+	c.pubMu.Unlock()
+}
+
+// resumeSubscriptions restarts the publish loop. It never blocks and has
+// no effect if the publish loop is not paused. The most recent of pause
+// and resume wins.
+func (c *Client) resumeSubscriptions(ctx context.Context) {
+	c.pubMu.Lock()
+	c.pubPaused = false
+	c.pubGen++
+	c.pubMu.Unlock()
+
 	select {
-	case <-ctx.Done():
-	case c.pausech <- struct{}{}:
+	case c.pubWake <- struct{}{}:
+	default:
+		// a wake-up is already pending
 	}
 }
 
-// resumeSubscriptions restarts the publish loop by signalling the resumech.
-// It has no effect if the publish loop is not paused.
-func (c *Client) resumeSubscriptions(ctx context.Context) {
-	select {
-	case <-ctx.Done():
-	case c.resumech <- struct{}{}:
-	}
+// publishState returns whether the publish loop is paused and the
+// number of resume requests so far.
+func (c *Client) publishState() (paused bool, gen uint64) {
+	c.pubMu.Lock()
+	defer c.pubMu.Unlock()
+	return c.pubPaused, c.pubGen
 }
 
 // monitorSubscriptions sends publish requests and handles publish responses
@@ -370,44 +397,35 @@ func (c *Client) monitorSubscriptions(ctx context.Context) {
 	dlog := debug.NewPrefixLogger("sub: ")
 	defer dlog.Print("done")
 
-publish:
 	for {
 		select {
 		case <-ctx.Done():
 			dlog.Println("ctx.Done()")
 			return
-
-		case <-c.resumech:
-			dlog.Print("resume")
-			// ignore since not paused
-
-		case <-c.pausech:
-			dlog.Print("pause")
-			for {
-				select {
-				case <-ctx.Done():
-					dlog.Print("pause: ctx.Done()")
-					return
-
-				case <-c.resumech:
-					dlog.Print("pause: resume")
-					continue publish
-
-				case <-c.pausech:
-					dlog.Print("pause: pause")
-					// ignore since already paused
-				}
-			}
-
 		default:
-			// send publish request and handle response
-			//
-			// publish() blocks until a PublishResponse
-			// is received or the context is cancelled.
-			if err := c.publish(ctx); err != nil {
-				dlog.Print("error: ", err.Error())
-				c.pauseSubscriptions(ctx)
+		}
+
+		paused, gen := c.publishState()
+		if paused {
+			dlog.Print("pause")
+			select {
+			case <-ctx.Done():
+				dlog.Print("pause: ctx.Done()")
+				return
+			case <-c.pubWake:
+				// the state may have changed: check again
 			}
+			continue
+		}
+
+		// send publish request and handle response
+		//
+		// publish() blocks until a PublishResponse
+		// is received or the context is cancelled.
+		if err := c.publish(ctx); err != nil {
+			dlog.Print("error: ", err.Error())
+			// unless somebody asked to resume in the meantime
+			c.pauseSubscriptionsIf(gen)
 		}
 	}
 }
